@@ -149,6 +149,23 @@ pub async fn run(_cli: &Cli, report: &mut Report, mock: Arc<MockSession>) {
                 report.sample(detail.clone());
             }
             let asked = seen.iter().any(|l| l.contains("/session/minecraft/hasJoined") && l.contains(&format!("username={}", claimed.name)));
+            // the hash as the client computes it: from the server id and the public key it was sent in
+            // the Encryption Request and the secret it chose. It is what the client told the session
+            // service when it joined, so it is what the router has to ask with
+            if let Some((server_id, public_key)) = log.received.iter().find_map(|r| match &r.pkt {
+                Ok(Pkt::EncryptionRequest { server_id, public_key, .. }) => Some((server_id.clone(), public_key.clone())),
+                _ => None,
+            }) {
+                let hash = vp_common::refcrypto::minecraft_hash_ref(&server_id, &secret, &public_key);
+                report.count("has-joined requests compared with the hash a client computes from the wire", seen.len() as u64);
+                if !seen.is_empty() && !seen.iter().any(|l| l.contains(&format!("serverId={hash}"))) {
+                    report.violation(
+                        &format!("configured-authentication/server-hash-not-the-clients/{name}"),
+                        &format!("the session service was asked with a serverId other than the hash the client computes from the Encryption Request it was sent (server id {server_id:?}): {hash}"),
+                        json!({"deployment": name, "server_id_on_the_wire": server_id, "client_side_hash": hash, "session_server_requests": seen}),
+                    );
+                }
+            }
             match (&verdict, &success) {
                 (Verdict::NotJoined, Some((_, n))) => report.violation(
                     &format!("configured-authentication/granted-without-verdict/{name}"),
@@ -177,5 +194,8 @@ pub async fn run_prop(cli: &Cli, mock: Arc<MockSession>) -> i32 {
     );
     report.assume("the default authentication service of an application whose configuration does not name one is the Mojang session service (the pinned tree's hand-written Default and the shipped documentation)");
     run(cli, &mut report, mock).await;
+    if cli.prop == "C11" {
+        report.retain_violations(|sig| sig.contains("server-hash-not-the-clients"));
+    }
     report.finish()
 }
